@@ -146,6 +146,39 @@ def _always_exits(stmts):
     return False
 
 
+def _reads(node, v):
+    return any(isinstance(x, ast.Name) and x.id == v and isinstance(x.ctx, ast.Load) for x in ast.walk(node))
+
+
+def _writes(st, v):
+    """does the statement bind the plain name v on every path through it?"""
+    if isinstance(st, ast.Assign):
+        return any(isinstance(t, ast.Name) and t.id == v for t in st.targets)
+    if isinstance(st, ast.If):
+        return bool(st.orelse) and any(_writes(x, v) for x in st.body) and any(_writes(x, v) for x in st.orelse)
+    return False
+
+
+def _live(stmts, v):
+    """may the value v has at the start of the statement list be read by it? (a read after a definite re-binding
+    does not count)"""
+    for st in stmts:
+        if isinstance(st, ast.If):
+            if _reads(st.test, v) or _live(st.body, v) or _live(st.orelse, v):
+                return True
+        elif isinstance(st, ast.For):
+            if _reads(st.iter, v) or _live(st.body, v):
+                return True
+        elif isinstance(st, ast.Assign):
+            if _reads(st.value, v) or any(_reads(t, v) for t in st.targets if not isinstance(t, ast.Name)):
+                return True
+        elif _reads(st, v):
+            return True
+        if _writes(st, v):
+            return False
+    return False
+
+
 def _has_rand(node):
     return any(isinstance(x, ast.Call) and ast.unparse(x.func) in ("np.random.rand", "numpy.random.rand")
                for x in ast.walk(node))
@@ -545,7 +578,7 @@ class Tr:
         if not _exits(st.body) and not _exits(st.orelse):
             # join: the variables either branch rebinds become the value of the conditional
             vs = [v for v in self.assigned(st.body + st.orelse, env) if v in env and env[v][0] == "val"]
-            new = [v for v in self.assigned(st.body + st.orelse, env) if v not in env]
+            new = [v for v in self.assigned(st.body + st.orelse, env) if v not in env and _live(rest, v)]
             if new:
                 # a variable first bound inside both branches (e.g. `obs`): it must be bound in both
                 vs = vs + new
